@@ -50,4 +50,31 @@ proof fn lemma_vars_wf_prefix(a1: Seq<Expr>, a2: Seq<Expr>, m: Map<Ustr, Nonterm
     }
 }
 
+
+/// definition k refers to n
+spec fn key_refs(a: Seq<Expr>, m: Map<Ustr, NontermDefn>, k: Ustr, n: Ustr) -> bool {
+    m.contains_key(k) && has_ref(a, m[k].rhs_expr_id.0 as int, n)
+}
+/// some definition refers to n
+spec fn defs_ref(a: Seq<Expr>, m: Map<Ustr, NontermDefn>, n: Ustr) -> bool {
+    exists|k: Ustr| #[trigger] key_refs(a, m, k, n)
+}
+spec fn defs_ref_upto(a: Seq<Expr>, m: Map<Ustr, NontermDefn>, keys: Seq<Ustr>, idx: int, n: Ustr) -> bool {
+    exists|q: int| 0 <= q < idx && q < keys.len() && key_refs(a, m, #[trigger] keys[q], n)
+}
+
+/// C15, in terms of the input: a statement (call variant or plain definition) refers to n
+spec fn call_variant_refs(g: Grammar, upto: int, n: Ustr) -> bool {
+    exists|i: int| 0 <= i < upto && i < call_variant_stmts(g.statements@).len() && has_ref(g.arena@, (#[trigger] call_variant_stmts(g.statements@)[i]).2.0 as int, n)
+}
+spec fn plain_def_refs(g: Grammar, n: Ustr) -> bool {
+    exists|i: int| 0 <= i < defs(g.statements@).len() && (#[trigger] defs(g.statements@)[i]).shell is None && has_ref(g.arena@, defs(g.statements@)[i].rhs_expr_id.0 as int, n)
+}
+spec fn stmt_refs(g: Grammar, n: Ustr) -> bool {
+    call_variant_refs(g, call_variant_stmts(g.statements@).len() as int, n) || plain_def_refs(g, n)
+}
+spec fn plain_defined(g: Grammar, n: Ustr) -> bool {
+    has_plain_def(defs(g.statements@), defs(g.statements@).len() as int, n)
+}
+
 } // verus!
